@@ -1,0 +1,16 @@
+//go:build verif
+
+package interpreter
+
+import "github.com/tetratelabs/wazero/api"
+
+// VerifReadCallEngine returns the number of call frames and of value-stack slots a call engine holds.
+// Both must be zero between calls, whatever the outcome of the previous call.
+// It exists only under the `verif` build tag, for the verification harness.
+func VerifReadCallEngine(f api.Function) (frames, stack int, ok bool) {
+	ce, ok := f.(*callEngine)
+	if !ok {
+		return 0, 0, false
+	}
+	return len(ce.frames), len(ce.stack), true
+}
